@@ -4,6 +4,7 @@ import (
 	"fmt"
 	"os"
 	"path/filepath"
+	"regexp"
 	"strings"
 
 	"github.com/php-any/origami/data"
@@ -152,6 +153,41 @@ func (w *world) run(v int, src, file string, probe bool) runRes {
 	return r
 }
 
+// loadFile writes the definitions file of op #i (class <name> + function <name>, both tagged d<i>)
+// and loads it the way include/autoload do: vm.LoadAndRun(file).
+func (w *world) loadFile(v, i, name int) runRes {
+	id := fmt.Sprintf("d%d", i)
+	sub := filepath.Join(w.dir, fmt.Sprintf("defs-%d", os.Getpid()))
+	file := filepath.Join(sub, fmt.Sprintf("%s_n%d.zy", id, name))
+	if !w.written(file) {
+		os.MkdirAll(sub, 0o755)
+		src := defSource(kClass, w.nm.of(name), id) + defSource(kFunc, w.nm.of(name), id)
+		if err := os.WriteFile(file, []byte(src), 0o644); err != nil {
+			panic(err)
+		}
+		wroteFiles[file] = true
+	}
+	var out strings.Builder
+	saved := data.WriteOutput
+	data.WriteOutput = func(s string) { out.WriteString(s) }
+	w.uncaught = nil
+	g := runner.Guard(func() {
+		_, acl := w.vm(v).LoadAndRun(file)
+		if acl == nil {
+			acl = w.uncaught
+		}
+		if acl != nil {
+			panic(acl)
+		}
+	})
+	data.WriteOutput = saved
+	return runRes{Kind: g.Kind, Out: out.String(), Msg: g.Msg + g.PanicKey}
+}
+
+var wroteFiles = map[string]bool{}
+
+func (w *world) written(file string) bool { return wroteFiles[file] }
+
 func defSource(kind int, name, id string) string {
 	switch kind {
 	case kClass:
@@ -229,7 +265,7 @@ func judgeVariant(m *model, h []Op, v int, p probe, name int, got string) (rel, 
 				return "", exp, "variant:resolved"
 			}
 		}
-		if d < 0 || d >= len(h) || h[d].K != opDefine {
+		if d < 0 || d >= len(h) || !h[d].defines() {
 			return "foreign-definition", exp, ""
 		}
 		if v == 0 {
@@ -249,11 +285,14 @@ func srcID(src string) string {
 	if b == autoClass+".zy" {
 		return "F"
 	}
-	if strings.HasPrefix(b, "d") && strings.HasSuffix(b, ".zy") {
-		return strings.TrimSuffix(b, ".zy")
+	// "d7.zy", "d7_n1.zy" (definitions file), "d7.zy(1) : eval()'d code"
+	if m := reDefSrc.FindString(b); m != "" {
+		return m
 	}
 	return "?src:" + b
 }
+
+var reDefSrc = regexp.MustCompile(`^d\d+`)
 
 type fromer interface{ GetFrom() data.From }
 
@@ -397,8 +436,9 @@ func judge(m *model, h []Op, v int, p probe, name int, got string) (rel, exp, ca
 		}
 	}
 	al := m.allowed(v, p.Kinds, name)
+	mu := m.must(v, p.Kinds, name) // al minus the eval-requested definitions (those may stay unresolved)
 	who := func(d int) string { // relation for a definition that must not be visible on v
-		if d < 0 || d >= len(h) || h[d].K != opDefine {
+		if d < 0 || d >= len(h) || !h[d].defines() {
 			return "foreign-definition"
 		}
 		if v == 0 {
@@ -413,7 +453,7 @@ func judge(m *model, h []Op, v int, p probe, name int, got string) (rel, exp, ca
 		if v == 0 {
 			return "base-lost-own"
 		}
-		if len(m.allowed(0, p.Kinds, name)) > 0 {
+		if len(m.must(0, p.Kinds, name)) > 0 {
 			return "base-def-hidden"
 		}
 		return "own-def-hidden"
@@ -434,6 +474,8 @@ func judge(m *model, h []Op, v int, p probe, name int, got string) (rel, exp, ca
 				return "", "n", "bool:absent"
 			}
 			return "", "n", "bool:absent-throw"
+		case len(mu) == 0:
+			return "", "y or n (requested through eval only)", "eval:unresolved"
 		default:
 			return hidden(), "y", ""
 		}
@@ -464,10 +506,16 @@ func judge(m *model, h []Op, v int, p probe, name int, got string) (rel, exp, ca
 			if len(al) > 1 {
 				cat = "open-choice->" + vmKind(h[d].VM)
 			}
+			if h[d].K == opEval {
+				cat = "eval:resolved-on-" + vmKind(v)
+			}
 			return "", ids(al), cat
 		}
 	}
 	if got == "-" || strings.HasPrefix(got, "!") {
+		if len(mu) == 0 {
+			return "", "unresolved or one of " + ids(al), "eval:unresolved"
+		}
 		return hidden(), "one of " + ids(al), ""
 	}
 	if strings.HasPrefix(got, "d") {
@@ -507,7 +555,7 @@ func canonID(m *model, h []Op, got string) string {
 	if v, k, n, ord, ok := m.owner(d); ok {
 		return fmt.Sprintf("%d.%d.%d.%d", v, k, n, ord)
 	}
-	if d >= 0 && d < len(h) && h[d].K == opDefine {
+	if d >= 0 && d < len(h) && h[d].defines() {
 		return fmt.Sprintf("dead%d.%d.%d", h[d].VM, h[d].Kind, h[d].Name)
 	}
 	return got
@@ -566,6 +614,19 @@ func execute(h []Op, nm names, dir string, wantRaw bool) execResult {
 			}
 		}
 	}
+	// autoFirst: before anything else in a lookup round, every temp (oldest first), then the base,
+	// asks for the autoloadable class through the Go API — i.e. with whatever parser binding the
+	// preceding ops left on that TempVM (probe scripts re-bind it), and before the base has the class.
+	autoFirst := func(step int) {
+		order := append(m.live()[1:], 0)
+		for _, v := range order {
+			for pi, p := range probes {
+				if !p.Script && p.ForAuto {
+					check(step, v, pi, nameF, false)
+				}
+			}
+		}
+	}
 	check = func(step, v, pi, name int, final bool) {
 		p := probes[pi]
 		got, note := w.observe(v, pi, name, spExact)
@@ -595,13 +656,23 @@ func execute(h []Op, nm names, dir string, wantRaw bool) execResult {
 		case opDefine:
 			id := fmt.Sprintf("d%d", i)
 			w.run(o.VM, defSource(o.Kind, nm.of(o.Name), id), id+".zy", false)
+		case opLoad:
+			w.loadFile(o.VM, i, o.Name)
+		case opEval:
+			id := fmt.Sprintf("d%d", i)
+			src := ""
+			for _, k := range []int{kClass, kFunc, kIface} {
+				src += "eval('" + strings.TrimSpace(defSource(k, nm.of(o.Name), id)) + "');\n"
+			}
+			w.run(o.VM, src, id+".zy", false)
 		}
 		m.apply(o, i)
-		if o.K == opDefine {
+		if o.defines() {
 			ever[o.Name] = true
 		}
 		switch o.K {
 		case opLookup:
+			autoFirst(i)
 			for _, v := range m.live() {
 				for n := 0; n < usedNames(); n++ {
 					for pi, p := range probes {
@@ -624,6 +695,7 @@ func execute(h []Op, nm names, dir string, wantRaw bool) execResult {
 	}
 	last := len(h) - 1
 	w.newRound()
+	autoFirst(last)
 	for _, v := range m.live() {
 		for n := 0; n < nSym; n++ {
 			for pi := range probes {
